@@ -51,6 +51,10 @@ type UploadPlan struct {
 	NetCapacity int    `json:"net_capacity,omitempty"`
 	ResetUpAt   int    `json:"reset_up_at,omitempty"`
 	KeepAlive   bool   `json:"keep_alive,omitempty"`
+	// an earlier call through the same client is turned down with an error
+	// document of this media type (neither XML nor text), over a transport that
+	// allows one connection per host: the upload needs that connection back
+	Prelude string `json:"prelude,omitempty"`
 }
 
 func uploadData(n int) []byte {
@@ -466,6 +470,11 @@ func ExecuteUpload(t *testing.T, plan *Plan, opts Opts) *RunResult {
 			res.Infra = err.Error()
 			return
 		}
+		if p.Mode == "N" && p.Prelude != "" {
+			perr := client.Mkdir(context.Background(), "/earlier")
+			log.Addf(0, "earlier call through the same client (answered 507 with a %s document): %v", p.Prelude, perr)
+			tr.calls, tr.status, tr.err, tr.returned = 0, 0, nil, time.Time{}
+		}
 		start := time.Now()
 		ctx, cancel := context.WithCancel(context.Background())
 		if p.OwnCtx && !p.Deadline && p.Mode != "N" {
@@ -807,6 +816,9 @@ func GenC18Upload(seed uint64, tier string) *Plan {
 			p.Size = 262144
 			p.Writes = []int{100000, 100000, 62144}
 			p.PausesNS = []int64{0, 0, 0, 0}
+		}
+		if p.Server == "script" && r.Chance(0.2) {
+			p.Prelude = rt.Pick(r, []string{"application/json", "application/octet-stream", "image/png"})
 		}
 		if p.Server == "script" && r.Chance(0.25) {
 			// the server answers 2xx with a body at once, reads little or nothing of
